@@ -43,6 +43,10 @@ func runC09(rc *RunCtx, i int) {
 	trigger := core.Pick(r, []int{1, 2, 5, 10, 25, 50})
 	batchRows := core.Pick(r, []int{1, 1, 2, 3, 7})
 	producers := core.Pick(r, []int{1, 2, 4, 8, 16})
+	// partitioning of the offered batches: none, a small fixed set, or a fresh partition id for
+	// every batch (time-bucket / per-request keys): flush requests then never share a partition
+	partMode := core.Pick(r, []string{"none", "none", "fixed", "fresh"})
+	var batchSeq atomic.Int64
 	env, err := newLifecycleEnv(rc, i, r, func(s *gen.EngineSpec) {
 		s.IngestBuf = ingestBuf
 		s.BufRows = trigger
@@ -51,6 +55,10 @@ func runC09(rc *RunCtx, i int) {
 		s.RGBytes = 1 << 30
 		s.Part = gen.PartFunc{Name: "none"}
 		s.Partition = "none"
+		if partMode != "none" {
+			s.Part = gen.PartFunc{Name: "byKey:pk(" + partMode + ")", Fn: func(row map[string]any) string { v, _ := row["pk"].(string); return v }}
+			s.Partition = s.Part.Name
+		}
 	})
 	if err != nil {
 		rc.Violate(i, "scenario-failed", "", err.Error(), nil)
@@ -86,7 +94,7 @@ func runC09(rc *RunCtx, i int) {
 	per := (trigger + batchRows - 1) / batchRows
 	bound := int64(ingestBuf + 4*per + 2)
 	offers := int(bound) * 20
-	desc := map[string]any{"case": env.w.Case, "ingest_buffer": ingestBuf, "flush_trigger_rows": trigger, "batch_rows": batchRows, "producers": producers, "gate": gateKind, "bound": bound, "offers": offers, "max_buffered_time": maxBuf.String()}
+	desc := map[string]any{"case": env.w.Case, "ingest_buffer": ingestBuf, "flush_trigger_rows": trigger, "batch_rows": batchRows, "producers": producers, "gate": gateKind, "partitions": partMode, "bound": bound, "offers": offers, "max_buffered_time": maxBuf.String()}
 
 	var accepted, answered, maxOut atomic.Int64
 	sample := func() {
@@ -140,8 +148,16 @@ func runC09(rc *RunCtx, i int) {
 			for offered.Add(1) <= int64(offers) && consecutive < 3 {
 				rowMu.Lock()
 				rows := make([]map[string]any, batchRows)
+				bn := batchSeq.Add(1)
 				for k := range rows {
-					rows[k] = env.w.NewRow(rr, 0).Row
+					rows[k] = env.w.NewRowWith(rr, 0, func(row map[string]any) {
+						switch partMode {
+						case "fixed":
+							row["pk"] = fmt.Sprintf("p%d", bn%3)
+						case "fresh":
+							row["pk"] = fmt.Sprintf("p%d", bn)
+						}
+					}).Row
 				}
 				rowMu.Unlock()
 				ch := make(chan error, 2)
